@@ -20,7 +20,7 @@ ASSUMPTIONS = [
     "fresh-process baseline: every probe command is executed in a new plain Python process under PYTHONHASHSEED 0, 1, 2 and 3; "
     "all must agree (files that represent sets are compared as sorted lines) and are "
     "the values a call after any history must reproduce",
-    "op alphabet of 16 commands over three fixed treebanks (export, brackets, TIGER-XML) and two terminal files with "
+    "op alphabet of 21 commands over four fixed treebanks (export, brackets, TIGER-XML, PTB-style brackets with traces) and two terminal files with "
     "different names and contents",
 ]
 OUTSIDE = ["histories longer than the bound", "terminal files with the same name and different content",
@@ -39,7 +39,14 @@ S3 = ("N", "VROOT", "--", (("N", "S", "--", (("N", "NP-SB", "SB", (("T", "Der", 
                            ("T", ".", "$.", "--", ".", "m", 9)))
 
 
+S4 = ("N", "VROOT", "--", (("N", "S", "--", (("N", "WHNP-1", "--", (("T", "who", "WP", "--", "--", "--", 1),)),
+                                            ("N", "S", "--", (("N", "NP-SBJ-1", "--", (("T", "*T*-1", "-NONE-", "--", "--", "--", 2),)),
+                                                              ("N", "VP", "--", (("T", "left", "VBD", "--", "--", "--", 3),
+                                                                                ("N", "NP=2", "--", (("T", "*", "-NONE-", "--", "--", "--", 4),)))))))),))
+
+
 def fixtures():
+    stubs.put("f4.mrg", enc_brackets([(None, S4), (None, S4)], fw=None))
     stubs.put("f1.export", enc_export([(1, SD), (2, SC), (3, S3)]))
     stubs.put("f2.mrg", enc_brackets([(None, SC), (None, S3)], fw=None))
     stubs.MemFS.files["f3.xml"] = enc_tiger([(5, SD), (6, S3)])
@@ -123,10 +130,25 @@ def op(i, tag):
         transform.run(_targs("f1.export", d, "export", "export", ["root_attach", "punctuation_verylow", "punctuation_symetrify"],
                              ["relc:PRELS"], dest_opts=["gf"]))
         return stubs.get(d)
+    if i in (16, 17):
+        transform.run(_targs("f4.mrg", d, "brackets", "brackets", ["ptb_delete_traces"],
+                             ["keepall", "keepcoindex"] if i == 17 else ["slash"]))
+        return stubs.get(d)
+    if i == 18:
+        a = _targs("f1.export", d, "export", "export")
+        a.split = "1#_rest"
+        transform.run(a)
+        return stubs.get(d + ".0") + "\n--\n" + stubs.get(d + ".1")
+    if i in (19, 20):
+        _noexit(transitions.run, argparse.Namespace(src="f2.mrg", dest=d, transtype=["inorder", "topdown"][i - 19],
+                                                    transform=["negra_mark_heads", "binarize"],
+                                                    transformparams=[], src_format="brackets", src_enc="utf-8", src_opts=["quiet"],
+                                                    dest_format="plain", dest_enc="utf-8", dest_opts=[], verbose=False))
+        return stubs.get(d)
     raise ValueError("unknown op %r" % i)
 
 
-NOPS = 16
+NOPS = 21
 SEEDS = ("0", "1", "2", "3")
 _FRESH = {}
 
@@ -147,7 +169,9 @@ def fresh():
             return _FRESH["v"]
         res = []
         for seed in SEEDS:
-            env = dict(os.environ, PYTHONHASHSEED=seed)
+            root = os.path.dirname(os.path.dirname(os.path.abspath(__file__)))
+            env = dict(os.environ, PYTHONHASHSEED=seed, PYTHONWARNINGS="ignore",
+                       PYTHONPATH=root + os.pathsep + os.environ.get("VERIF_REPO", "/repo"))
             p = subprocess.run([_realsys.executable, "-m", "harness.c18"], env=env, capture_output=True, text=True, timeout=600)
             if p.returncode != 0:
                 raise RuntimeError("baseline process failed: " + p.stderr[-2000:])
@@ -173,7 +197,7 @@ def _baseline_main():
     print(json.dumps(out))
 
 
-STATEFUL = [2, 3, 4, 5, 6, 7]     # commands whose implementation keeps or could keep state between calls
+STATEFUL = [2, 3, 4, 5, 6, 7, 16, 17]     # commands whose implementation keeps or could keep state between calls
 
 
 def history(k, p, sub=False, **kw):
@@ -203,7 +227,8 @@ def history(k, p, sub=False, **kw):
 
 
 # ----------------------------------------------------------------------------- additivity
-AOPS = ["export", "discobrackets", "tigerxml", "terminals", "pipeline", "binarize", "gapdegree", "grammar", "markov", "transitions"]
+AOPS = ["export", "discobrackets", "tigerxml", "terminals", "pipeline", "binarize", "gapdegree", "grammar", "markov", "transitions",
+        "inorder", "topdown"]
 
 
 def _run_a(a, sents, tag):
@@ -254,6 +279,11 @@ def _run_a(a, sents, tag):
                                                     transformparams=[], src_format="export", src_enc="utf-8", src_opts=["quiet"],
                                                     dest_format="plain", dest_enc="utf-8", dest_opts=[], verbose=False))
         return ("text", stubs.get(d))
+    if a in (10, 11):
+        _noexit(transitions.run, argparse.Namespace(src="c.export", dest=d, transtype=AOPS[a], transform=["negra_mark_heads", "binarize"],
+                                                    transformparams=[], src_format="export", src_enc="utf-8", src_opts=["quiet"],
+                                                    dest_format="plain", dest_enc="utf-8", dest_opts=[], verbose=False))
+        return ("text", stubs.get(d))
     raise ValueError(a)
 
 
@@ -263,6 +293,12 @@ def additive(m, n, a, swap, **kw):
     A = (1, spec_e1(m, n, ip, lp, labels=["VROOT", "NP", "S"][:m], words=["a", ",", "b", "``"][:n], pos=["P1", "$,", "P1", "P3"][:n],
                     edges=["--", "HD", "NK", "HD", "NK", "--", "SB"][:m + n]))
     B = (2, SD)
+    if a in (10, 11):
+        # in-order and top-down oracles are defined for continuous trees
+        from harness.formats import spec_gapdeg
+        if spec_gapdeg(A[1]) > 0:
+            return "~"
+        B = (2, SC)
     first, second = (B, A) if swap else (A, B)
     try:
         kind, r1 = _run_a(a, [first], "1")
